@@ -1,0 +1,202 @@
+//go:build verif
+
+// Contracts for the permission engine (comment-only; build tag verif).
+// Checked by /verif/bin/govc; see /verif/DESIGN.md §4 (C02, C03, C15).
+
+package check
+
+// ---- dependencies (ASSUMED): accessors return non-nil collaborators and have no effect on verified state
+
+//@ func EngineDependencies.Config
+//@   trusted
+//@   pure
+//@   ensures result != nil
+//@ func EngineDependencies.Logger
+//@   trusted
+//@   pure
+//@   ensures result != nil
+//@ func EngineDependencies.Tracer
+//@   trusted
+//@   pure
+//@   ensures result != nil
+//@ func EngineDependencies.RelationTupleManager
+//@   trusted
+//@   pure
+//@   ensures result != nil
+//@ func EngineDependencies.Traverser
+//@   trusted
+//@   pure
+//@   ensures result != nil
+//@ func EngineDependencies.ReadOnlyMapper
+//@   trusted
+//@   pure
+//@   ensures result != nil
+
+//@ spec wfe(e *Engine) bool = e != nil && e.d != nil
+
+// ---- well-formed rewrite ASTs (ASSUMED of what the namespace manager returns: the
+// parser and the JSON decoder never produce nil children). The AST is immutable while
+// a request runs.
+//@ ghost wfrw(int) bool
+//@ ghost wfinv(int) bool
+//@ axiom wfrw_nonnil: forall r int :: wfrw(r) ==> r != 0
+//@ axiom wfinv_nonnil: forall r int :: wfinv(r) ==> r != 0
+//@ spec wfchild(c ast.Child) bool = c != nil && (istype(c, *ast.SubjectSetRewrite) ==> wfrw(as(c, *ast.SubjectSetRewrite))) && (istype(c, *ast.InvertResult) ==> wfinv(as(c, *ast.InvertResult))) && (istype(c, *ast.ComputedSubjectSet) ==> as(c, *ast.ComputedSubjectSet) != nil) && (istype(c, *ast.TupleToSubjectSet) ==> as(c, *ast.TupleToSubjectSet) != nil)
+//@ unfold wfrw(r *ast.SubjectSetRewrite) bool = forall i in 0..len(r.Children) :: wfchild(r.Children[i])
+//@ unfold wfinv(v *ast.InvertResult) bool = wfchild(v.Child)
+
+// ---- C02: the effective depth. eff(r, g) = g if r <= 0 or g < r, else r.
+//@ spec eff(r int, g int) int = (r <= 0 || g < r) ? g : r
+
+//@ callers-only[C02] (*Config).MaxReadDepth : (*Engine).CheckRelationTuple, (*Engine).buildTreeRecursive
+//@ callers-only[C02] (*Config).MaxReadWidth : (*Engine).checkExpandSubject
+
+//@ func (*Engine).CheckIsMember
+//@   props C03 C08
+//@   requires wfe(e) && r != nil && ctx != nil
+//@   ensures[C03] err-means-denied: result1 != nil ==> !result0
+
+//@ func (*Engine).CheckRelationTuple
+//@   props C02 C03 C15
+//@   opt abandon-props C15
+//@   requires wfe(e) && r != nil && ctx != nil
+//@   callsite (*Engine).checkIsAllowed requires[C02] clamp: restDepth == eff(old(restDepth), globalMaxDepth) && 1 <= restDepth && restDepth <= globalMaxDepth
+//@   ensures[C03] result-inv: res.Err != nil ==> res.Membership != checkgroup.IsMember
+
+//@ func (*Engine).checkIsAllowed
+//@   props C02 C03 C15
+//@   modifies nothing
+//@   requires wfe(e) && r != nil && ctx != nil
+//@   ensures result != nil
+//@   ensures[C02] depth-exhausted: restDepth <= 0 ==> result == checkgroup.UnknownMemberFunc
+
+//@ func (*Engine).astRelationFor
+//@   trusted
+//@   pure
+//@   requires wfe(e) && r != nil
+//@   ensures result0 != nil && result0.SubjectSetRewrite != nil ==> wfrw(result0.SubjectSetRewrite)
+
+//@ func containsSubjectSetExpand
+//@   trusted
+//@   pure
+
+//@ func (*Engine).checkDirect
+//@   props C02 C03 C15
+//@   modifies nothing
+//@   requires wfe(e) && r != nil
+//@   ensures result != nil
+//@   ensures[C02] depth-exhausted: restDepth <= 0 ==> result == checkgroup.UnknownMemberFunc
+
+//@ func (*Engine).checkDirect$1
+//@   props C03 C15
+//@   like functype::checkgroup.CheckFunc
+//@   requires wfe(e) && r != nil
+//@   ensures[C03] err-propagates: faulted && !old(faulted) ==> lastsent(resultCh).Err != nil
+
+//@ func (*Engine).checkExpandSubject
+//@   props C02 C03 C15
+//@   modifies nothing
+//@   requires wfe(e) && r != nil
+//@   ensures result != nil
+//@   ensures[C02] depth-exhausted: restDepth <= 0 ==> result == checkgroup.UnknownMemberFunc
+
+//@ func (*Engine).checkExpandSubject$1
+//@   props C02 C03 C15
+//@   noframe
+//@   like functype::checkgroup.CheckFunc
+//@   requires wfe(e) && r != nil
+//@   ensures[C03] err-propagates: faulted && !old(faulted) ==> lastsent(resultCh).Err != nil
+
+//@ func (*Engine).checkExpandSubject$1$1
+//@   inline
+
+//@ func or
+//@   props C02 C03 C15
+//@   modifies faulted
+//@   requires ctx != nil
+//@   requires forall i in 0..len(checks) :: checks[i] != nil
+//@   ensures[C03] result-inv: result.Err != nil ==> result.Membership != checkgroup.IsMember
+//@   ensures[C02] sound-notmember: result.Err == nil && result.Membership == checkgroup.NotMember ==> forall j in 0..len(checks) :: hist(resultCh, j).Membership == checkgroup.NotMember
+//@   loop 1 invariant resultCh != nil && chancap(resultCh) == 1 && sent(resultCh) == $n && recvd(resultCh) == $n
+//@   loop 1 invariant forall j in 0..$n :: hist(resultCh, j).Err == nil && hist(resultCh, j).Membership != checkgroup.IsMember
+
+//@ func and
+//@   props C02 C03 C15
+//@   modifies faulted
+//@   requires ctx != nil
+//@   requires forall i in 0..len(checks) :: checks[i] != nil
+//@   ensures[C03] result-inv: result.Err != nil ==> result.Membership != checkgroup.IsMember
+//@   ensures[C02] sound-notmember: result.Err == nil && result.Membership == checkgroup.NotMember && len(checks) > 0 ==> exists j in 0..len(checks) :: hist(resultCh, j).Err == nil && hist(resultCh, j).Membership == checkgroup.NotMember
+//@   ensures[C02] sound-member: result.Err == nil && result.Membership == checkgroup.IsMember ==> forall j in 0..len(checks) :: hist(resultCh, j).Membership == checkgroup.IsMember
+//@   loop 1 invariant resultCh != nil && chancap(resultCh) == 1 && sent(resultCh) == $n && recvd(resultCh) == $n && tree != nil && fresh(tree) && fresh(tree.Children)
+//@   loop 1 invariant forall j in 0..$n :: hist(resultCh, j).Err == nil && hist(resultCh, j).Membership == checkgroup.IsMember
+
+//@ func checkNotImplemented
+//@   props C03 C15
+//@   like functype::checkgroup.CheckFunc
+
+//@ func toTreeNodeType
+//@   trusted
+//@   pure
+
+//@ func (*Engine).checkSubjectSetRewrite
+//@   props C02 C03 C15
+//@   modifies nothing
+//@   requires wfe(e) && tuple != nil && wfrw(rewrite) && ctx != nil
+//@   ensures result != nil
+//@   ensures[C02] depth-exhausted: restDepth <= 0 ==> result == checkgroup.UnknownMemberFunc
+//@   loop 1 invariant isnil(computedSubjectSets) || fresh(computedSubjectSets)
+//@   loop 1 invariant handled != nil && fresh(handled)
+//@   loop 2 invariant isnil(checks) || fresh(checks)
+//@   loop 2 invariant handled != nil
+
+//@ func (*Engine).checkSubjectSetRewrite$1
+//@   props C03 C15
+//@   like functype::checkgroup.CheckFunc
+//@   requires wfe(e) && tuple != nil
+//@   ensures[C03] err-propagates: faulted && !old(faulted) ==> lastsent(resultCh).Err != nil
+
+//@ func (*Engine).checkSubjectSetRewrite$1$1
+//@   inline
+
+//@ func (*Engine).checkSubjectSetRewrite$2
+//@   props C03 C15
+//@   like functype::checkgroup.CheckFunc
+//@   requires op != nil
+//@   requires forall i in 0..len(checks) :: checks[i] != nil
+
+//@ func functype::check.binaryOperator
+//@   modifies faulted
+//@   requires arg0 != nil
+//@   requires forall i in 0..len(arg1) :: arg1[i] != nil
+//@   ensures result.Err != nil ==> result.Membership != checkgroup.IsMember
+
+//@ func (*Engine).checkInverted
+//@   props C02 C03 C15
+//@   modifies nothing
+//@   requires wfe(e) && tuple != nil && wfinv(inverted) && ctx != nil
+//@   ensures result != nil
+
+//@ func (*Engine).checkInverted$1
+//@   props C03 C15
+//@   opt abandon-props C15
+//@   like functype::checkgroup.CheckFunc
+//@   requires check != nil
+
+//@ func (*Engine).checkComputedSubjectSet
+//@   props C02 C03 C15
+//@   modifies nothing
+//@   requires wfe(e) && r != nil && subjectSet != nil && ctx != nil
+//@   ensures result != nil
+
+//@ func (*Engine).checkTupleToSubjectSet
+//@   props C02 C03 C15
+//@   modifies nothing
+//@   requires wfe(e) && tuple != nil && subjectSet != nil
+//@   ensures result != nil
+
+//@ func (*Engine).checkTupleToSubjectSet$1
+//@   props C03 C15
+//@   like functype::checkgroup.CheckFunc
+//@   requires wfe(e) && tuple != nil && subjectSet != nil
+//@   ensures[C03] err-propagates: faulted && !old(faulted) ==> lastsent(resultCh).Err != nil || lastsent(resultCh).Membership == checkgroup.IsMember
